@@ -502,7 +502,7 @@ def cmdC16 (st : State) : Except String (List String) := do
     if labelId < 256 then errs := errs ++ [s!"{what}: label id {labelId} < 256"]
     for (lang, str) in labels do
       let want := utf16be str
-      let recs := names.filter (fun r => r.platform == 3 ∧ r.encoding == 1 ∧ r.language == lang ∧ r.nameId == labelId)
+      let recs := names.filter (fun r => r.platform == 3 ∧ (r.encoding == 1 ∨ r.encoding == 0) ∧ r.language == lang ∧ r.nameId == labelId)
       if !(recs.any (fun r => r.str == want)) then
         errs := errs ++ [s!"{what}: label id {labelId} does not resolve to \"{str}\" for Microsoft language {lang} (found {recs.size} record(s))"]
       if hasPlat0 ∧ lang == 1033 then
